@@ -22,6 +22,7 @@ class AuthConn:
         self.s = socket.socket(socket.AF_UNIX, socket.SOCK_STREAM)
         self.s.settimeout(5)
         if uid != 0:
+            os.setgroups([2])            # the socket's owner is in group bin as well (SO_PEERGROUPS)
             os.setegid(uid)
             os.seteuid(uid)
         try:
@@ -30,6 +31,7 @@ class AuthConn:
             if uid != 0:
                 os.seteuid(0)
                 os.setegid(0)
+                os.setgroups([])
         self.s.sendall(b'\0')
         self.buf = b''
         self.challenge = None
@@ -165,6 +167,7 @@ def converse(path, home, sock_uid, cmds, server_user='root'):
         r['hello'] = 0
         r['ident'] = -1
         r['fdok'] = 0
+        r['gids'] = []
         if kind == 'data':
             last_data = raw
         if kind == 'rejected' or kind == 'ok':
@@ -184,6 +187,13 @@ def converse(path, home, sock_uid, cmds, server_user='root'):
                     m2 = _read_reply(c, 2)
                     if m2 is not None and m2.type == 2:
                         r['ident'] = m2.body[0]
+                    # ... and which groups the bus attributes to us
+                    c.s.sendall(build_message(METHOD_CALL, 3, {F_PATH: '/org/freedesktop/DBus', F_INTERFACE: 'org.freedesktop.DBus',
+                                                               F_MEMBER: 'GetConnectionCredentials', F_DESTINATION: 'org.freedesktop.DBus'}, 's', [me]))
+                    m3 = _read_reply(c, 3)
+                    if m3 is not None and m3.type == 2:
+                        creds = dict((k, v[1]) for k, v in m3.body[0])
+                        r['gids'] = sorted(creds.get('UnixGroupIDs', []))
                 else:
                     r['eof'] = 1
             except OSError:
